@@ -811,6 +811,12 @@ class Ref:
                     for R in self.order:
                         R.desire = STOP
                     live = False
+            else:
+                post = getattr(self, "_post", 0) + 1
+                self._post = post
+                if post >= 4:       # mirror of the harness: bid abort to all four ticks after the stop bid
+                    for R in self.order:
+                        R.desire = ABORT
             # the real harness taskers are always in the ready queue, so `not ready` never triggers
             if not more:
                 break
